@@ -36,6 +36,13 @@ def main():
             rp = json.loads(open(a.replay).read())
             if rp.get('kind') == 'failing-input' and hasattr(mod, 'replay'):
                 mod.replay(ctx, rp['case'])
+                if not ctx.violations and not ctx.disagreements and not any(not o['ok'] for o in ctx.obligations):
+                    # the recorded case passes on its own: the failure may need the history of the run that found it (state
+                    # kept between calls of the implementation) - reproduce it in context, same tier and seed
+                    print('replay: the case alone passes; re-running the recorded run (tier %s, seed %s)' % (rp.get('tier'), rp.get('seed')))
+                    ctx.cleanup()
+                    ctx = core.Ctx(a.pid, rp.get('tier', tier), int(rp.get('seed', seed)))
+                    mod.run(ctx)
             else:
                 # a broken obligation is replayed by re-running the check
                 mod.run(ctx)
